@@ -33,7 +33,8 @@
 //   V (1090 LEMO) votes C1; C2 and C3 vote for C1 (their deposit refunds are voting weight of C1);
 //   inc0 = income address of genesis deputy D0 (150 LEMO) votes for C1: a salary / the fees of the
 //   blocks D0 mines cross its 200-LEMO step; D1 makes ITSELF its income address and votes for itself;
-//   in TB the deputy C1 (income address = itself) votes for itself and incC3 (income address of C3) for C1.
+//   incC3 (income address of C3, 150 LEMO) votes for C1; in TB the deputy C1 (income address = itself)
+//   votes for itself.
 //
 // Oracle after EVERY block (prefix blocks included), tally() of main.go over all accounts the history
 // ever touched (fixture + every address in a change log + every address the miner's account manager
@@ -185,9 +186,9 @@ func init() {
 	// balance changes of the voter V over / inside the 200-LEMO step
 	xfer("tXV150", tX, tV, 150)
 	xfer("tVX150", tV, tX, 150)
-	// a transfer whose FEE is 100 LEMO (21000 gas at 1/210 LEMO): the miner's income address crosses a step
-	tdef("fee100", "transfer-with-100-LEMO-fee", func(exp uint64) *types.Transaction {
-		price := new(big.Int).Div(node.Lemo(100), big.NewInt(21000))
+	// a transfer whose FEE is 150 LEMO (21000 gas at 1/140 LEMO): the miner's income address crosses a step
+	tdef("fee150", "transfer-with-150-LEMO-fee", func(exp uint64) *types.Transaction {
+		price := new(big.Int).Div(node.Lemo(150), big.NewInt(21000))
 		return node.Tx(node.TxSpec{Type: params.OrdinaryTx, From: tX, To: &tW.Addr, Amount: node.Lemo(1), Exp: exp, GasLimit: 21000, GasPrice: price})
 	})
 	// top-ups
@@ -294,10 +295,10 @@ var tScenarios = map[string]*tScenario{}
 
 func init() {
 	sdef := func(s *tScenario) { tScenarios[s.name] = s }
-	preA := []string{tFundLetter, "rC1,rC3,rC2", "s0=400,vI0C1,pD1self", "vD1D1,vVC1,vC3C1,vC2C1", "-", "-"}
+	preA := []string{tFundLetter, "rC1,rC3,rC2", "s0=400,vI0C1,pD1self", "vD1D1,vVC1,vC3C1,vC2C1", "vI3C1", "-"}
 	sdef(&tScenario{name: "TA", prefix: preA, window: 6, paid: 0})
 	sdef(&tScenario{name: "TA'", prefix: preA, window: 6, paid: 0, late: []int{1}})
-	preB := append(append([]string{}, preA...), "-", "-", "-", "-", "-", "vC1C1,vI3C1", "s1=1000", "-")
+	preB := append(append([]string{}, preA...), "-", "-", "-", "-", "-", "vC1C1", "s1=1000", "-")
 	sdef(&tScenario{name: "TB", prefix: preB, window: 6, paid: 1})
 	sdef(&tScenario{name: "TB'", prefix: preB, window: 6, paid: 1, late: []int{19}})
 }
